@@ -301,6 +301,10 @@ func cmdCheck(id, tier string) int {
 				} else {
 					status = "happens-before verdict; go test -race of the harness did not hit it"
 				}
+			} else if v.AssertID == "guarded-by" {
+				// the lock-discipline monitor has no native counterpart (a single-threaded native run of the
+				// harness cannot observe which mutex was held): its verdict is the engine's own
+				status = "lock-discipline monitor verdict (no native counterpart)"
 			} else if !res.Cfg.NoReplay && os.Getenv("VERIF_NOREPLAY") == "" {
 				ok, out, err := nativeReplay(ld, &rf)
 				if err != nil {
